@@ -8,7 +8,7 @@
 //              ALL                   every single split point 0..len with capacities 1, 2 and unlimited
 //              DRIP/<cap>            one byte per round
 // out: {"in":[..],"relaxed":r,"runs":[{"caps":[c, ..],"out":[decoded bytes in the order they left the parser],
-//        "steps":[{"n":bytes delivered so far,"oc":"NeedMore|Done|Reject|Limit","used":input bytes consumed so far,"outn":decoded bytes so far}]}],"ub":b}
+//        "steps":[[bytes delivered so far, "NeedMore|Done|Reject|Limit", input bytes consumed so far, decoded bytes so far]]}],"ub":b}
 #include "squid.h"
 #include "base/TextException.h"
 #include "http/one/TeChunkedParser.h"
@@ -74,7 +74,7 @@ oneRun(const std::string &in, const std::vector<size_t> &cuts, const long cap)
     }
     os << ",\"out\":" << U::Bytes(out) << ",\"steps\":[";
     for (size_t i = 0; i < steps.size(); ++i)
-        os << (i ? "," : "") << "{\"n\":" << steps[i].n << ",\"oc\":\"" << steps[i].oc << "\",\"used\":" << steps[i].used << ",\"outn\":" << steps[i].outn << "}";
+        os << (i ? "," : "") << "[" << steps[i].n << ",\"" << steps[i].oc << "\"," << steps[i].used << "," << steps[i].outn << "]";
     os << "]}";
     return os.str();
 }
